@@ -252,4 +252,104 @@ theorem early_registration_served_any (s : St) (t w : Nat) (tm : Bool) (mid post
 
 example : (run [.add 2 [7] true true, .put 3, .put 7, .putTerm] St.init).lists 2 = [.tok 7, .term] := by decide
 
+theorem mem_push_iff {ls p x q y} : y ∈ push ls p x q ↔ y ∈ ls q ∨ (q = p ∧ y = x) := by
+  unfold push; split <;> simp_all
+
+theorem tok_exec {ls : Nat → List Item} {r : Rule} {t q x} (h : Item.tok x ∈ exec ls r t q) : Item.tok x ∈ ls q ∨ x = t := by
+  unfold exec at h
+  cases hp : r.prop <;> cases ht : r.termn <;> simp only [hp, ht, if_true, if_false, Bool.false_eq_true] at h
+  · exact Or.inl h
+  · rcases mem_push_iff.mp h with h | ⟨_, h⟩
+    · exact Or.inl h
+    · cases h
+  · rcases mem_push_iff.mp h with h | ⟨_, h⟩
+    · exact Or.inl h
+    · cases h; exact Or.inr rfl
+  · rcases mem_push_iff.mp h with h | ⟨_, h⟩
+    · rcases mem_push_iff.mp h with h | ⟨_, h⟩
+      · exact Or.inl h
+      · cases h; exact Or.inr rfl
+    · cases h
+
+theorem tok_putLoop (t : Nat) (rs : List Rule) : ∀ ls m q x, Item.tok x ∈ (putLoop t rs ls m).2.1 q → Item.tok x ∈ ls q ∨ x = t := by
+  induction rs with
+  | nil => intro ls m q x h; exact Or.inl (by simpa [putLoop] using h)
+  | cons r rs ih =>
+    intro ls m q x h
+    simp only [putLoop] at h
+    rcases ih _ _ q x h with h | h
+    · split at h
+      · exact tok_exec h
+      · exact Or.inl h
+    · exact Or.inr h
+
+theorem tok_addLoop (ts : List Nat) : ∀ r ls q x, Item.tok x ∈ (addLoop ts r ls).2 q → Item.tok x ∈ ls q ∨ x ∈ ts := by
+  induction ts with
+  | nil => intro r ls q x h; exact Or.inl (by simpa [addLoop] using h)
+  | cons a ts ih =>
+    intro r ls q x h
+    simp only [addLoop] at h
+    rcases ih _ _ q x h with h | h
+    · split at h
+      · rcases tok_exec h with h | h
+        · exact Or.inl h
+        · exact Or.inr (by simp [h])
+      · exact Or.inl h
+    · exact Or.inr (List.mem_cons_of_mem _ h)
+
+theorem tagsOf_mem {l : List Item} {t : Nat} (h : t ∈ tagsOf l) : Item.tok t ∈ l := by
+  induction l with
+  | nil => simp [tagsOf] at h
+  | cons x l ih =>
+    cases x with
+    | tok u =>
+      simp only [tagsOf] at h
+      rcases List.mem_cons.mp h with h | h
+      · subst h; simp
+      · exact List.mem_cons_of_mem _ (ih h)
+    | term => exact List.mem_cons_of_mem _ (ih (by simpa [tagsOf] using h))
+
+/-- one step creates no token: whatever is in some port afterwards was in some port before, or is the token put -/
+theorem step_sound (s : St) (op : Op) (q x : Nat) (h : Item.tok x ∈ (step s op).lists q) :
+    (∃ q', Item.tok x ∈ s.lists q') ∨ op = .put x := by
+  cases op with
+  | put t =>
+    simp only [step] at h
+    split at h
+    · rcases tok_putLoop t s.rules s.lists false q x h with h | h
+      · exact Or.inl ⟨q, h⟩
+      · exact Or.inr (by rw [h])
+    · rcases mem_push_iff.mp h with h | ⟨_, h⟩
+      · rcases tok_putLoop t s.rules s.lists false q x h with h | h
+        · exact Or.inl ⟨q, h⟩
+        · exact Or.inr (by rw [h])
+      · cases h; exact Or.inr rfl
+  | putTerm =>
+    rcases mem_push_iff.mp h with h | ⟨_, h⟩
+    · exact Or.inl ⟨q, h⟩
+    · cases h
+  | add p tags pr tm =>
+    rcases tok_addLoop _ _ _ q x h with h | h
+    · exact Or.inl ⟨q, h⟩
+    · exact Or.inl ⟨0, tagsOf_mem h⟩
+
+/-- **no fabricated hand-over**: every token found in any port of the recovery workflows was put by the producer
+    (boundary rules only forward, whatever the order of registrations, puts and terminations). -/
+theorem delivered_only_if_put (ops : List Op) : ∀ (s : St) (q x : Nat), Item.tok x ∈ (run ops s).lists q →
+    (∃ q', Item.tok x ∈ s.lists q') ∨ Op.put x ∈ ops := by
+  induction ops with
+  | nil => intro s q x h; exact Or.inl ⟨q, h⟩
+  | cons op ops ih =>
+    intro s q x h
+    rcases ih (step s op) q x h with ⟨q', h'⟩ | h'
+    · rcases step_sound s op q' x h' with h'' | h''
+      · exact Or.inl h''
+      · exact Or.inr (by rw [h'']; exact List.mem_cons_self ..)
+    · exact Or.inr (List.mem_cons_of_mem _ h')
+
+theorem delivered_only_if_put_init (ops : List Op) (q x : Nat) (h : Item.tok x ∈ (run ops St.init).lists q) : Op.put x ∈ ops := by
+  rcases delivered_only_if_put ops St.init q x h with ⟨q', h'⟩ | h'
+  · simp [St.init] at h'
+  · exact h'
+
 end SFV.C19Port
